@@ -205,9 +205,16 @@ Lemma calc_offset_bios_only_refuted_witness :
                    calc_offset LBiosOnly addr <> Ok (spec_offset len addr).
 Proof. exists 65536, 4294967280. split; [unfold BASE; lia|]. vm_compute. discriminate. Qed.
 
+Lemma Ok_inj' {A} (a b : A) : @Ok A a = Ok b -> a = b.
+Proof. intros H. exact (f_equal (fun o => match o with Ok x => x | _ => a end) H). Qed.
+
+(* [injection]/[inversion] on [Ok (wrap64 (BASE - addr)) = Ok off] do not return (they
+   head-normalise the modulo); [Ok_inj'] avoids any reduction. *)
 Lemma calc_offset_nonneg l addr off : calc_offset l addr = Ok off -> 0 <= off.
 Proof.
-  destruct l; cbn [calc_offset]; intros H; inversion H; subst; try apply wrap64_range.
+  intros H.
+  destruct l; cbn [calc_offset] in H;
+    [apply Ok_inj' in H; rewrite <- H; apply wrap64_range ..| discriminate H].
 Qed.
 
 (* ================================================================== *)
